@@ -595,7 +595,7 @@ class Executor:
 
     def cast(self, a, ty, kind):
         ty = ty.strip()
-        if kind.startswith("PointerCoercion") or kind in ("PtrToPtr", "Transmute", "Subtype") and not isinstance(a, Sc):
+        if kind.startswith("PointerCoercion") or "Unsize" in kind or kind in ("PtrToPtr", "Transmute", "Subtype") and not isinstance(a, Sc):
             return a
         if not isinstance(a, Sc):
             raise Inconclusive("cast %s of %r" % (kind, a))
